@@ -1,6 +1,6 @@
 /-
   Model of the varlink interface-description parser: a line-by-line transliteration of
-  /repo/varlink/idl/idl.go (`parser.next/backup/advance/advanceOnLine`, `isBlank`, `readKeyword`,
+  /repo/varlink/idl/idl.go (`parser.next/backup/advance/peek`, `isBlank`, `readKeyword`,
   `readInterfaceName`, `readFieldName`, `readTypeName`, `readStructType`, `readType`, `readAlias`,
   `readMethod`, `readError`, `readIDL`, `New`).
 
@@ -109,7 +109,6 @@ def isAlnum (c : UInt8) : Bool := isUpper c || isLower c || isDigitC c
 def isLowerDigit (c : UInt8) : Bool := isLower c || isDigitC c
 def isFieldChar (c : UInt8) : Bool := isUpper c || isLower c || isDigitC c || c = 95
 def isNotNl (c : UInt8) : Bool := c ≠ 10
-def isSpTab (c : UInt8) : Bool := c = 32 || c = 9
 
 /-- `if p.next() != ' ' { p.backup() }` -/
 def skipOneSpace (s : St) : St :=
@@ -180,8 +179,20 @@ def advance (s : St) : Out St := advanceLoop (s.len + 1) s
 /-- the value `advance` returns: `p.position < len(p.input)` -/
 @[inline] def St.more (s : St) : Bool := s.pos < s.len
 
-/-- `func (p *parser) advanceOnLine()` -/
-def advanceOnLine (s : St) : Out St := scan isSpTab (s.len + 1) s
+/-- the loop of `func (p *parser) peek() int`: `for i := p.position; i < len(p.input); i++ { char := p.input[i]; … }`
+    over `input[position:]`; the index is in range by the loop condition, so there is no panic outcome, and the
+    recursion is structural in the remaining input, so there is no fuel. `comment` is the local flag. -/
+def peekLoop : Bool → Bytes → Option UInt8
+  | _, [] => none                                         -- return -1
+  | comment, c :: r =>
+    if c = 10 then peekLoop false r                       -- '\n': comment = false
+    else if comment || c = 32 || c = 9 || c = 13 then peekLoop comment r   -- ignore
+    else if c = 35 then peekLoop true r                   -- '#': comment = true
+    else some c                                           -- return int(char)
+
+/-- `func (p *parser) peek() int`: the next byte that is neither whitespace nor part of a comment (`none` = -1);
+    the parser state is not touched -/
+@[inline] def peek (s : St) : Option UInt8 := peekLoop false s.rest
 
 /-- `return p.input[start:p.position]` -/
 @[inline] def sliceFrom (start : St) (s : St) : Out (Bytes × St) :=
@@ -293,8 +304,8 @@ def mkFieldList (kind : SKind) (acc : Fields) : Ty :=
   | .enum => .enum acc.reverse
 
 /-
-  `readType` returns `*Type` (nil = failure) and leaves the position wherever it got to; callers look at both
-  (`readError` compares the position with the one before the call). Hence `Out (Option Ty × St)`.
+  `readType` returns `*Type` (nil = failure) and leaves the position wherever it got to. Hence
+  `Out (Option Ty × St)`.
 -/
 mutual
 /-- `func (p *parser) readType() *Type` -/
@@ -417,13 +428,11 @@ def readError (s : St) : Out (Member × St) := do
   let s1 ← advance s
   let (name, s2) ← readTypeName s1
   if name = [] then .err .missingErrorName else
-  let s3 ← advanceOnLine s2
-  let start := s3.pos
+  if peek s2 ≠ some 40 then .ok (.error name doc none, s2) else    -- if p.peek() == '(' { … }; return e, nil
+  let s3 ← advance s2
   let (t, s4) ← readType (typeFuel s3) s3
   match t with
-  | none =>
-    if s4.pos ≠ start then .err .invalidErrorType
-    else .ok (.error name doc none, s4)
+  | none => .err .invalidErrorType
   | some t => .ok (.error name doc (some t), s4)
 
 /-- the member loop of `readIDL`; `names` is the key set of the map `members`, `acc` is `idl.Members` most
